@@ -63,8 +63,17 @@ func runC06(t *sim.T, tier string) *sim.Violation {
 	var inputs []c06Input
 	nRT := t.Range(1, 3)
 	for i := 0; i < nRT; i++ {
-		b := gen.MarshalFeed(gen.RichFeedMin(t, 3))
+		msg := gen.RichFeedMin(t, 3)
+		b := gen.MarshalFeed(msg)
 		inputs = append(inputs, c06Input{0, b, fmt.Sprintf("rt%d(%dB)", i, len(b))})
+		if t.Chance(1, 3) && msg.Header != nil {
+			// the same message without a header timestamp (extensions that look at the feed time must not
+			// fall back on what an earlier feed said)
+			msg.Header.Timestamp = nil
+			b2 := gen.MarshalFeed(msg)
+			inputs = append(inputs, c06Input{0, b2, fmt.Sprintf("rt%d-no-timestamp(%dB)", i, len(b2))})
+			t.Probe("input-without-timestamp")
+		}
 	}
 	if t.Chance(1, 2) {
 		src := inputs[t.Choose(nRT)].b
